@@ -6,5 +6,7 @@ cd "$(dirname "$0")"
 export CARGO_NET_OFFLINE=true
 mkdir -p .work
 python3 tools/extract.py
-(cd lean && lake build kvmodel KikiVerif)
+(cd lean && lake build kvmodel)
+python3 tools/mk_cert.py
+(cd lean && lake build KikiVerif)
 (cd harness && cargo build --offline)
